@@ -300,6 +300,43 @@ def run(tier):
     chk.cov["skipped_steps"] = skipped     # steps of a schedule that could not be forced (the procedure had already ended)
     if forced == 0 or skipped > forced:
         chk.infra.append("forced-schedule replay is (nearly) vacuous: %d steps forced, %d skipped" % (forced, skipped))
+    # 2b. the same complete behaviours with the other kinds of client write (one VAdd; one VAddBatch of several records)
+    for kind in ("vadd", "vbatch"):
+        sub = rng.sample(behaviours, min(len(behaviours), 50 if quick else 800))
+        kb = [dict(b, id="%s_%s" % (kind, b["id"]), kind=kind) for b in sub]
+        kres = vlib.run_sharded(binary, "writer", {}, kb)
+        for e in kres.get("errors", []):
+            chk.infra.append("schedule replay error (%s): %s" % (kind, e))
+        judge(chk, kb, kres)
+        chk.cov["traces_validated_against_impl"] += kres.get("behaviours", 0)
+        chk.cov["evaluations"] += sum(r.get("forced", 0) for r in kres.get("results", []))
+        chk.cov.setdefault("forced_schedules_by_kind", {})[kind] = kres.get("behaviours", 0)
+    # 2c. refusal probes: schedules the specification FORBIDS. With CaptureWaits = FALSE the model takes A_Capture while a
+    #     call sits between its journal write and its memory update (tag capture_in_gap; TLC refutes Inv_NoAckedLossStrict on
+    #     them, see the canary). Forced onto the implementation, the forbidden step must not happen: the procedure has to
+    #     wait at its capture for as long as the call is parked. If the implementation takes the step anyway, the schedule
+    #     is carried on and judged by what the restart reads (a loss is then a violation shown on the real code).
+    precs = corpus(chk, "MC_Writer_probe_corpus", consts("c_Clients2", 1, 1, 0, capturewaits=False, snapfails=False), timeout=1800)
+    precs = [r for r in dedup(precs) if "capture_in_gap" in (r.get("cov") or [])]
+    if not precs:
+        raise Infra("no capture_in_gap behaviour in the deviation corpus: the refusal probes are vacuous")
+    if len(precs) > (12 if quick else 200):
+        precs = rng.sample(precs, 12 if quick else 200)
+    probes = [dict(r, id="p%d_%s" % (i, kind), kind=kind, probe=True) for i, r in enumerate(precs) for kind in ("kv", "vadd", "vbatch")]
+    pres = vlib.run_sharded(binary, "writer", {}, probes)
+    for e in pres.get("errors", []):
+        chk.infra.append("probe replay error: " + e)
+    plost = judge(chk, probes, pres)
+    refused = sum(r.get("refused", 0) for r in pres.get("results", []))
+    proceeded = sum(r.get("proceeded", 0) for r in pres.get("results", []))
+    chk.cov["refusal_probes"] = {"schedules": len(probes), "forbidden_steps_refused": refused, "forbidden_steps_taken": proceeded,
+                                 "schedules_with_loss_on_real_code": plost,
+                                 "rule": "behaviours of Writer.tla with CaptureWaits = FALSE that take A_Capture while a call is between journal "
+                                         "and apply; per kind of write (KVSet, VAdd, VAddBatch); refused = the procedure did not pass its capture "
+                                         "within 300 ms while the call was parked"}
+    chk.cov["traces_validated_against_impl"] += pres.get("behaviours", 0)
+    if refused + proceeded == 0:
+        chk.infra.append("refusal probes are vacuous: no forbidden step was attempted")
     # 3. backward conformance: traces of unforced concurrent load validated by TLC
     record_and_validate(chk, 16 if quick else 150, rng)
     # 4. Prop_FlushCovers / the full drain of W_FlushQ and A_BeginQ on the real LazyAOFWriter at a scale where its
